@@ -1041,8 +1041,26 @@ def __fixXmlPart(xmlpart):
     result=xmlpart
     requestedPrefixes = (u'meta', u'config', u'dc', u'style',
                          u'svg', u'fo',u'draw', u'table',u'form')
+    # the declarations belong into the root element: never into a document
+    # type declaration that precedes it
+    start = 0
+    pos = xmlpart.find(u'<!DOCTYPE')
+    if pos >= 0:
+        start = len(xmlpart)
+        depth = 0
+        quote = None
+        for i in range(pos, len(xmlpart)):
+            c = xmlpart[i]
+            if quote:
+                if c == quote: quote = None
+            elif c in u'"\'': quote = c
+            elif c == u'[': depth += 1
+            elif c == u']': depth -= 1
+            elif c == u'>' and depth == 0:
+                start = i + 1
+                break
     for prefix in requestedPrefixes:
-        if u' xmlns:{prefix}'.format(prefix=prefix) not in xmlpart:
+        if u' xmlns:{prefix}'.format(prefix=prefix) not in xmlpart[start:]:
             ###########################################
             # fixed a bug triggered by math elements
             # Notice: math elements are creectly exported to XHTML
@@ -1050,7 +1068,7 @@ def __fixXmlPart(xmlpart):
             # 2016-02-19 G.K.
             ###########################################
             try:
-                pos=result.index(u" xmlns:")
+                pos=result.index(u" xmlns:", start)
                 toInsert=u' xmlns:{prefix}="urn:oasis:names:tc:opendocument:xmlns:{prefix}:1.0"'.format(prefix=prefix)
                 result=result[:pos]+toInsert+result[pos:]
             except:
